@@ -32,9 +32,18 @@ CHECKS = {
                      'and every start cell, with ALL integer constants: cycle reachable <=> an exception mentioning a cycle is raised within a fixed frame budget; otherwise the reference value and never '
                      'a cycle report; cycles of every length/tail/entry incl. through ranges; failure-message length polynomial in the chain depth (d <= 20).',
                 note=XH_NOTE + ' Time is measured in interpreter frames (recursion budget), not wall-clock; memory is bounded by RLIMIT_AS of the worker.'),
+    'C04': dict(engine='XH', technique='symbolic execution (CrossHair+z3) of Evaluator/Model over all set/evaluate history skeletons up to a length bound with symbolic written values',
+                text='Bounded symbolic model checking: on 4 compiled models (chain, diamond, range consumer, two sheets + defined names) every history of length 3 (thorough 4) over '
+                     '{set input (also via its name), evaluate cell (also via its name)} gives, for ALL integer values written, the value of an independent reference function of the current '
+                     'inputs = a fresh evaluation on a second compiled copy; stored value and get_cell_value agree.',
+                note=XH_NOTE + ' Histories beyond the length bound and models beyond 7 cells are outside.'),
+    'C05': dict(engine='XH', technique='symbolic execution (CrossHair+z3) of the Evaluator over all evaluation schedules up to a length bound, one/two evaluators, symbolic inputs; structural memory proxy',
+                text='Bounded symbolic model checking: every schedule of 3 (thorough 4) evaluations with repetitions, by one or two evaluators sharing the model, yields for ALL integer inputs the '
+                     'reference value for each cell; model constants, formula texts, defined names and key sets unchanged; no evaluation context survives and no evaluator container grows on repetition.',
+                note=XH_NOTE + ' The RSS/tracemalloc formulation of the memory clause is outside the technique; only the structural proxy is decided.'),
 }
 NA = {
     'C12': 'persist/restore is ten lines around jsonpickle -> json (C encoder) -> gzip/file I/O; no repo-side kernel a solver can quantify over (symbolic values are realised or pickled as proxy objects at the codec boundary)',
 }
-for _p in ['C03', 'C04', 'C05', 'C07', 'C08', 'C10', 'C11', 'C13', 'C14', 'C15', 'C16', 'C18', 'C19', 'C20']:
+for _p in ['C03', 'C07', 'C08', 'C10', 'C11', 'C13', 'C14', 'C15', 'C16', 'C18', 'C19', 'C20']:
     NA.setdefault(_p, 'check not built yet in this revision (planned: see DESIGN.md §4)')
